@@ -219,6 +219,11 @@ def implCanon (op : Op) (out : String) : String :=
     match out.splitOn ":" with
     | ["ok", ps, "1"] => "ok:" ++ ps
     | _ => out
+  | .listObjectsV2 .. | .listObjects .. =>
+    -- `ok:<items>:<count>:<truncated>:<common prefixes>:<paging flag>`
+    match out.splitOn ":" with
+    | ["ok", its, n, t, cps, _flag] => s!"ok:{its}:{n}:{t}:{cps}"
+    | _ => out
   | _ => out
 
 def opName : Op → String
@@ -413,18 +418,22 @@ def classify (st : State) (sp : Store) (tn : Taints) (op : Op) (exp got : Resp) 
   | _, _, _ => shapeOr generic
 where
   listClass (pfx delim : Option Bytes) (t : Bool) (cps : List Bytes) : Nat × String :=
-    let weird := match pfx with
-      | some p => p.head? = some slash || hasSub [slash, slash] p || hasSub [slash, 46, slash] p
+    -- the one listing deviation left open (fe72881): leading slashes of the prefix are dropped, so a prefix no key starts with
+    -- lists keys. The other shapes name deviations that were repaired: they are violations if they come back
+    let leadingSlash : Bool := match pfx with
+      | some p => p.head? == some slash
       | none => false
-    if (delim.any fun d => d ≠ [slash]) then (5, "fs:list-delimiter-rewrites-keys")
-    else if weird then (5, "fs:list-prefix-as-path")
-    else if cps ≠ [] then (5, "fs:list-delimiter-not-rolled-up")
-    else if t then (5, "fs:list-ignores-max-keys")
+    if leadingSlash then (5, "fs:list-prefix-as-path")
     else match taintFor tn op with
       | some c => (5, c)
       | none => match shapeClass st sp op with
+        -- the bucket holds keys the backend keeps in another form (open findings fs:key-normalised, fs:directory-key)
         | some c => (5, c)
-        | none => (9, s!"fs:{opName op}:listing")
+        | none =>
+          if (delim.any fun d => d != [slash] && d != []) then (5, "fs:list-delimiter-rewrites-keys")
+          else if cps ≠ [] then (5, "fs:list-delimiter-not-rolled-up")
+          else if t then (5, "fs:list-ignores-max-keys")
+          else (9, s!"fs:{opName op}:listing")
 
 /-! ## silent divergences of the state, remembered so that their later observation gets a cause -/
 
@@ -577,11 +586,19 @@ def replay (dirLen : Nat) (ops : List Op) (outs : List String) : Acc :=
         else
           -- the model's structured answer equals the implementation's: judge it against the store
           let (p1, e) := StoreSpec.step hashes a.sp op
+          -- the harness followed the continuation tokens / markers of a truncated listing: the pages must make up the listing
+          -- (the format of the token is the backend's; the store has none)
+          let pagingBroken := match op with
+            | .listObjectsV2 .. | .listObjects .. => out.endsWith ":P0"
+            | _ => false
           if renderFor op e ≠ i then
             let (prio, cls) := classify a.st a.sp a.tn op e r
             { a with st := s1, sp := abs s1, tn := {},
                      fails := (prio, k, cls ++ s!" [{opName op} expected {((renderFor op e).take 60).toString} got {(i.take 60).toString}]") :: a.fails }
           else
+            let a := if pagingBroken then
+                { a with fails := (8, k, s!"fs:list-pagination-broken [{opName op}: the pages after a truncated listing do not make up the listing]") :: a.fails }
+              else a
             { a with st := s1, sp := p1, tn := retaint a.tn a.st op a.sp p1 (abs s1) }) {}
 
 def clsOf (s : String) : String := (s.splitOn " ").headD s
